@@ -36,6 +36,9 @@ pub const BY_PREV: f64 = 0.0;
 
 const TWO_PI: f64 = 2.0 * PI;
 
+/// Rounding slack (radians) of the boundary comparison, far below any meaningful joint resolution.
+const BOUNDARY_ROUNDING: f64 = 1e-12;
+
 impl Constraints {
     /// Create constraints that restrict the joint rotations between 'from' to 'to' values.
     /// Wrapping arround is supported so order is important. For instance,
@@ -154,7 +157,8 @@ impl Constraints {
         if difference > PI {
             difference = TWO_PI - difference;
         }
-        difference <= tolerance
+        // Limits are inclusive: absorb the rounding of the centre / half-width arithmetic
+        difference <= tolerance + BOUNDARY_ROUNDING
     }
 
     /// Checks if all values in the given vector or angles satisfy these constraints.
